@@ -2,6 +2,7 @@ import Driver.Proto
 import ScrapliModel.Lemmas.PrivSession
 import ScrapliModel.PrivFault
 import ScrapliModel.PrivOptions
+import ScrapliModel.PrivScript
 namespace Driver.C04
 namespace C04
 open Scrapli Scrapli.Priv
@@ -19,6 +20,12 @@ answer: `<dom> <model errs> <model modes> <model log> <spec errs> <spec modes> <
 `fsess <levels> <default> <secret> <start> <ordseed> <ops> <faultTick> <resetBefore>` — a session in
 which the navigation step issued in loop iteration `faultTick` fails after the device moved →
 `<dom> <model errs> <model modes> <model log> <model caches>`
+
+`script <records> <bits> <default> <secret> <start> <ordseed> <items>` — `records` = every level the
+DEVICE has, `bits` = which of them the driver is configured with; items: the operation tokens, `gp`
+(GetPrompt), `ref` (an operation refused before anything is sent), `mc` (SendCommandsFromFile on an
+unreadable file), `upd:<bits>` (levels edited + UpdatePrivileges), `def:<hex>` (DefaultDesiredPriv
+assigned) → the same eight answer fields as `sess`, one entry per item
 
 `path <levels> <cur> <tgt> <ordseed>` → `<dom> <model path> <spec path>`
 `proc <levels> <cache> <tgt> <mode> <ordseed>` → `<dom> <action> <next> <cache'>`
@@ -152,6 +159,106 @@ def modelRunF (c : Cfg) (rb : Bool) (faults : Nat → Bool) :
     let (es, ms, cs, s2) := modelRunF c rb faults s1 ops
     (errName e :: es, toHex s1.dev.mode :: ms, toHex s1.cache :: cs, s2)
 
+/-- the scenario with only the records selected by `bits` configured in the driver (prompts, asks
+and match rows still cover every device level) -/
+def mkCfgSub (rs : List LvRec) (bits : List Bool) (default secret : Bytes) (seed : Nat) : Cfg :=
+  { mkCfg rs default secret seed with L := ((rs.zip bits).filter (·.2)).map (·.1.lv) }
+
+inductive Tok
+  | item (model spec : Item)
+  | upd (bits : List Bool)
+  | dflt (d : Bytes)
+
+def parseTok (s : String) : Option Tok :=
+  if s == "gp" then some (.item .getPrompt .getPrompt)
+  else if s == "ref" then some (.item .refused .refused)
+  else if s == "mc" then some (.item (.op (.sendCommands [])) (.op (.sendCommands [])))
+  else match s.splitOn ":" with
+    | ["upd", b] => some (.upd (parseBits b))
+    | ["def", d] => (fromHex d).map .dflt
+    | _ => do
+      let m ← parseOp false s
+      let sp ← parseOp true s
+      some (.item (.op m) (.op sp))
+
+def parseToks (s : String) : Option (List Tok) :=
+  if s == "." then some [] else (s.splitOn ",").mapM parseTok
+
+def domB (c : Cfg) : Bool :=
+  isTree c.L && recognises c && ambigLeaf c && cmdsOK c.L && asksOK c && (names c.L).contains c.default
+
+def invB (c : Cfg) (s : Sess) : Bool :=
+  s.dev.awaiting.isNone && (names c.L).contains s.dev.mode &&
+  (!(names c.L).contains s.cache || s.cache == s.dev.mode) &&
+  (unambB c s.dev.mode || s.cache == s.dev.mode)
+
+/-- the state is described by the scenario: the invariant holds, or the device shows a prompt no
+configured level accepts (every acquisition is refused: `undeterminable_prompt_refused`) -/
+def stateOK (c : Cfg) (s : Sess) : Bool :=
+  invB c s || (s.dev.awaiting.isNone && undeterminable c s.dev.mode && !(names c.L).contains s.cache)
+
+/-- model run of a script, with the decidable side conditions of `script_coherent` evaluated along
+the way; `mk` builds the scenario from (bits, default) -/
+def scriptRun (mk : List Bool → Bytes → Cfg) :
+    List Bool → Bytes → Sess → List Tok → Bool × List String × List String × List String × Sess
+  | _, _, s, [] => (true, [], [], [], s)
+  | bits, d, s, t :: rest =>
+    let c := mk bits d
+    match t with
+    | .item m _ =>
+      let ok := match m with
+        | .op o => (opLines o).all fun l => l.isEmpty || isPayload c.L l
+        | _ => true
+      let r := runItem c s m
+      let (ok', es, ms, cs, s2) := scriptRun mk bits d r.2.2 rest
+      (ok && ok', errName r.1 :: es, toHex r.2.2.dev.mode :: ms, toHex r.2.2.cache :: cs, s2)
+    | .upd bits' =>
+      let c' := mk bits' d
+      let (ok', es, ms, cs, s2) := scriptRun mk bits' d s rest
+      (domB c' && stateOK c' s && ok', "nil" :: es, toHex s.dev.mode :: ms, toHex s.cache :: cs, s2)
+    | .dflt d' =>
+      let c' := mk bits d'
+      let (ok', es, ms, cs, s2) := scriptRun mk bits d' s rest
+      (domB c' && stateOK c' s && ok', "nil" :: es, toHex s.dev.mode :: ms, toHex s.cache :: cs, s2)
+
+/-- the property's demand for a script, computed without search and without the loop -/
+def scriptSpec (mk : List Bool → Bytes → Cfg) :
+    List Bool → Bytes → Bytes → Bytes → List Tok → List String × List String × List (Bytes × Bytes)
+  | _, _, _, _, [] => ([], [], [])
+  | bits, d, mode, cache, t :: rest =>
+    let c := mk bits d
+    match t with
+    | .upd bits' =>
+      let (es, ms, lg) := scriptSpec mk bits' d mode cache rest
+      ("nil" :: es, toHex mode :: ms, lg)
+    | .dflt d' =>
+      let (es, ms, lg) := scriptSpec mk bits d' mode cache rest
+      ("nil" :: es, toHex mode :: ms, lg)
+    | .item _ .getPrompt =>
+      let (es, ms, lg) := scriptSpec mk bits d mode cache rest
+      ("nil" :: es, toHex mode :: ms, (mode, []) :: lg)
+    | .item _ .refused =>
+      let (es, ms, lg) := scriptSpec mk bits d mode cache rest
+      ("noop" :: es, toHex mode :: ms, lg)
+    | .item _ (.reconfig _) =>
+      let (es, ms, lg) := scriptSpec mk bits d mode cache rest
+      ("nil" :: es, toHex mode :: ms, lg)
+    | .item _ (.op op) =>
+      let lvl := opLevel c op
+      let skip := opSkips c { dev := { mode := mode, awaiting := none, log := [] }, cache := cache, tick := 0 } op
+      if !skip && !(names c.L).contains lvl then
+        let (es, ms, lg) := scriptSpec mk bits d mode cache rest
+        ("privilege" :: es, toHex mode :: ms, lg)
+      else if !skip && undeterminable c mode then
+        -- the prompt is read (one bare return) and no level accepts it: refused, nothing else sent
+        let (es, ms, lg) := scriptSpec mk bits d mode cache rest
+        ("privilege" :: es, toHex mode :: ms, (mode, []) :: lg)
+      else
+        let entries := (if skip then [] else expectedLog c (treePath c.L mode lvl)) ++
+          (opLines op).map fun l => (lvl, l)
+        let (es, ms, lg) := scriptSpec mk bits d lvl lvl rest
+        (errName (opErr op) :: es, toHex lvl :: ms, entries ++ lg)
+
 def showPath : Option (List Bytes) → String
   | none => "none"
   | some p => if p.isEmpty then "_" else "+".intercalate (p.map toHex)
@@ -173,6 +280,18 @@ def handleC04 : List String → String
       let (ses, sms, slog) := specRun c start [] sops
       s!"{b2s dom} {showList mes} {showList mms} {showLog s1.dev.log} {showList ses} {showList sms} {showLog slog} {showList mcs}"
     | _, _, _, _, _, _, _ => "bad-op"
+  | ["script", lv, bits, dflt, sec, start, seed, items] =>
+    match parseLevels lv, fromHex dflt, fromHex sec, fromHex start, seed.toNat?, parseToks items with
+    | some rs, some dflt, some sec, some start, some seed, some toks =>
+      let mk := fun (b : List Bool) (d : Bytes) => mkCfgSub rs b d sec seed
+      let bits := parseBits bits
+      let c0 := mk bits dflt
+      let s0 : Sess := { dev := { mode := start, awaiting := none, log := [] }, cache := [], tick := 0 }
+      let (ok, mes, mms, mcs, s1) := scriptRun mk bits dflt s0 toks
+      let dom := domB c0 && stateOK c0 s0 && ok
+      let (ses, sms, slog) := scriptSpec mk bits dflt start [] toks
+      s!"{b2s dom} {showList mes} {showList mms} {showLog s1.dev.log} {showList ses} {showList sms} {showLog slog} {showList mcs}"
+    | _, _, _, _, _, _ => "bad-op"
   | ["fsess", lv, dflt, sec, start, seed, ops, ftick, rb] =>
     match parseLevels lv, fromHex dflt, fromHex sec, fromHex start, seed.toNat?, parseOps false ops, ftick.toNat? with
     | some rs, some dflt, some sec, some start, some seed, some ops, some ftick =>
